@@ -2,8 +2,15 @@
 import cpu_props
 
 ID = 'C02'
-LEAN_MODULES = []
-NAMESPACES = []
+LEAN_MODULES = ['Py65.Props.C02']
+NAMESPACES = ['Py65.Props.C02', 'Py65.Proofs.HC', 'Py65.Proofs.H']
+EXPECTED_THEOREMS = ['Py65.Props.C02.C02_partial']
+TRUSTED = ['Spec.Cpu / Spec.Isa (hand-written programming model, the oracle)',
+           'translator harness/py2lean.py (Python subset -> Lean), validated on every run by exact-state comparison of the generated model with the real device',
+           'Py.land/lor/lxor definitions (characterised bit-wise by theorems in Proofs/PyIntLemmas.lean, differentially tested)']
+ASSUMPTIONS = ['C02_partial covers the opcodes not listed in Py65.Props.C02.unproved (ADC/SBC and ROL/ROR handler theorems are still open; covered by the Spec-vs-device differential only)',
+               'JSR: the two stack cells written are not the instruction\'s own operand bytes',
+               'state not waiting (WAI behaviour is C06); model state well-formed (WF)']
 LEVEL = 'proof'
 RULE = ('every declared opcode x boundary-biased states (registers, operands, pointers and PC aimed at page/wrap boundaries); distinct = distinct (opcode, register-class, pc-quadrant, touched-cell-count) signatures of executions that ran')
 
